@@ -1,3 +1,4 @@
+CONSTANT Small = FALSE
 SPECIFICATION GSpec
 INVARIANT Emit
 CHECK_DEADLOCK FALSE
